@@ -5,13 +5,14 @@ Written from the property text and the protocols (xterm ctlseqs "SGR mouse mode 
 bracketed paste 2004, focus 1004), independently of `handleSequence`.
 
 A *report* is what the terminal sends for one user action or one answer to a query.  Key
-identity is opaque here (property C09 owns key decoding): a key report carries a token.
+identity is opaque here (property C09 owns key decoding): a key report carries a token of an
+arbitrary type `κ` (a string in the driver, the parsed sequence itself in the theorems).
 -/
 namespace VaxisModel.Spec.InputEvents
 
-inductive Report
+inductive Report (κ : Type)
   /-- a key press in some encoding; `et` is the kitty event type it carries (0 press …) -/
-  | key (tok : String) (et : Int)
+  | key (tok : κ) (et : Int)
   /-- `CSI < b ; x ; y M` (press/motion) or `… m` (release) -/
   | mouseSGR (b x y : Nat) (release : Bool)
   | focus (gained : Bool)
@@ -27,8 +28,8 @@ inductive Report
   deriving DecidableEq, Repr
 
 /-- Application-visible events. -/
-inductive UEvent
-  | key (tok : String) (et : Int)
+inductive UEvent (κ : Type)
+  | key (tok : κ) (et : Int)
   | mouse (button : Nat) (col row : Int) (et : Nat) (mods : Nat)
   | focusIn | focusOut | pasteStart | pasteEnd
   | colorTheme (mode : Nat)
@@ -43,7 +44,7 @@ def etPaste : Nat := 4
 /-- SGR mouse decoding by arithmetic on the button value `b`:
 bits 0–1 and 6–7 give the button number (0–2 buttons, 3 none, 64… wheel, 128… extra),
 bit 2 shift, bit 3 alt (meta), bit 4 ctrl, bit 5 motion; coordinates are 1-based. -/
-def mouseEvent (b x y : Nat) (release : Bool) : UEvent :=
+def mouseEvent {κ : Type} (b x y : Nat) (release : Bool) : UEvent κ :=
   let button := b % 4 + (b / 64 % 4) * 64
   let et := if b / 32 % 2 == 1 then etMotion else if release then etRelease else etPress
   let mods := (b / 4 % 2) * 1 + (b / 8 % 2) * 2 + (b / 16 % 2) * 4
@@ -51,7 +52,7 @@ def mouseEvent (b x y : Nat) (release : Bool) : UEvent :=
 
 /-- One event per report, in stream order; keys between the paste brackets are marked pasted;
 replies produce nothing the application can see, except the two notifications. -/
-def specEvents : Bool → List Report → List UEvent
+def specEvents {κ : Type} : Bool → List (Report κ) → List (UEvent κ)
   | _, [] => []
   | inPaste, r :: rs =>
     match r with
@@ -66,7 +67,7 @@ def specEvents : Bool → List Report → List UEvent
     | .replyTheme m => .colorTheme m :: specEvents inPaste rs
     | .truncated _ => specEvents inPaste rs
 
-def UEvent.canon : UEvent → String
+def UEvent.canon : UEvent String → String
   | .key tok et => s!"K/{tok}/{et}"
   | .mouse b c r et m => s!"M/{b}/{r}/{c}/{et}/{m}"
   | .focusIn => "FI" | .focusOut => "FO" | .pasteStart => "PS" | .pasteEnd => "PE"
